@@ -26,7 +26,11 @@ def main():
         if a.replay:
             return campaign.replay(chk, a.replay)
         seed = int(os.environ.get("VERIF_SEED", chk.default_seed))
-        return campaign.execute(chk, a.tier, seed, a.budget)
+        budget = a.budget
+        if budget is None and a.tier == "thorough":
+            # wall-clock cap of the thorough tier (VERIF_BUDGET_S / --budget override it); the evidence says when it cut the campaign short
+            budget = 1200.0
+        return campaign.execute(chk, a.tier, seed, budget)
     except build.HarnessError as e:
         print("HARNESS-ERROR %s" % e)
         return 2
